@@ -188,7 +188,9 @@ def run(tier):
     res.need("T5g.no-dangling-owner", 25)
     alloc.destructor_releases_fields(prog, res, "T5d.field-destructor", DESTRUCTORS, ALLOC_LIKE)
     res.need("T5d.field-destructor", 16)
-    alloc.destructor_null_tolerant(prog, res, "T5f.destructor-null-tolerant", NULL_TOLERANT)
+    alloc.destructor_null_tolerant(prog, res, "T5f.destructor-null-tolerant", NULL_TOLERANT, {
+        ("ZSTDMT_releaseAllJobResources", "bufPool"): "handed to ZSTDMT_releaseBuffer, which returns before touching the pool when the buffer is NULL; "
+                                                       "no job holds a buffer when the pool could not be created (job table zeroed at creation)"})
     res.need("T5f.destructor-null-tolerant", 3)
     alloc.allocator_before_destructor(prog, res, "T5e.allocator-before-destructor", CTORS)
     res.need("T5e.allocator-before-destructor", 7)
